@@ -110,6 +110,11 @@ pub trait Engine: 'static {
     fn extra_coverage(_ctx: &Ctx, _labels: &BTreeMap<String, u64>) -> Value {
         Value::Null
     }
+    /// whether the property promises that calls complete (a reproducible hang is then a violation,
+    /// otherwise it is reported as inconclusive)
+    fn hang_is_violation(_prop: &str) -> bool {
+        false
+    }
     /// how the case is rendered as an evidence sample
     fn sample(case: &Self::Case) -> Value {
         serde_json::to_value(case).unwrap_or(Value::Null)
@@ -324,6 +329,21 @@ fn replay<E: Engine>(path: &str) -> i32 {
         known: known.iter().map(|k| k.id.clone()).collect(),
         replay: true,
     };
+    if std::env::var_os("VERIF_HANG_CHILD").is_none() {
+        // a replay that hangs reports it instead of waiting forever
+        let (prop, path2, viol) = (rf.property.clone(), path.to_string(), E::hang_is_violation(&rf.property));
+        let limit: u64 = std::env::var("VERIF_HANG_S").ok().and_then(|s| s.parse().ok()).unwrap_or(60);
+        std::thread::spawn(move || {
+            std::thread::sleep(std::time::Duration::from_secs(limit));
+            if viol {
+                println!("oracle: hang\ndetail: the replayed case did not finish within {} s", limit);
+                println!("VIOLATION property={} replay={}", prop, path2);
+                std::process::exit(1);
+            }
+            println!("INCONCLUSIVE: the replayed case did not finish within {} s", limit);
+            std::process::exit(2);
+        });
+    }
     let rep = E::run(&ctx, &case);
     for k in &rep.known {
         println!("KNOWN-FINDING: property={} {}", rf.property, k);
@@ -368,10 +388,24 @@ fn write_replay<E: Engine>(ctx: &Ctx, f: &Failure<E::Case>) -> PathBuf {
 /// cases finished so far (all shards); watched by the hang watchdog
 static PROGRESS: std::sync::atomic::AtomicU64 = std::sync::atomic::AtomicU64::new(0);
 
-/// A pool operation that never returns while running inline cannot be interrupted;
-/// if no case finishes for `VERIF_HANG_S` seconds (default 120) the process reports
-/// the run as inconclusive (exit 2), never as a violation.
-fn start_hang_watchdog(prop: String) {
+/// the case every shard is executing right now (serialised on demand by the hang watchdog)
+type CaseDump = Box<dyn Fn() -> Value + Send>;
+static CURRENT: Mutex<Vec<Option<(Instant, CaseDump)>>> = Mutex::new(Vec::new());
+
+fn set_current(shard: usize, dump: Option<CaseDump>) {
+    let mut c = CURRENT.lock().unwrap_or_else(|e| e.into_inner());
+    if c.len() <= shard {
+        c.resize_with(shard + 1, || None);
+    }
+    c[shard] = dump.map(|d| (Instant::now(), d));
+}
+
+/// A pool operation that never returns while running inline cannot be interrupted. If no case
+/// finishes for `VERIF_HANG_S` seconds (default 120) the case that has been running longest is
+/// written out and re-executed in a child process. If it hangs there too and the property
+/// promises that calls complete, that is a violation; in every other case the run is
+/// inconclusive (exit 2).
+fn start_hang_watchdog(engine: &'static str, prop: String, seed: u64, hang_is_violation: bool) {
     let limit: u64 = std::env::var("VERIF_HANG_S").ok().and_then(|s| s.parse().ok()).unwrap_or(120);
     std::thread::spawn(move || {
         let mut last = PROGRESS.load(Ordering::Relaxed);
@@ -382,20 +416,84 @@ fn start_hang_watchdog(prop: String) {
             if now != last {
                 last = now;
                 since = Instant::now();
-            } else if since.elapsed().as_secs() >= limit {
-                println!(
-                    "INCONCLUSIVE: no case of {} finished for {} s (an operation hangs); no evidence written",
-                    prop, limit
-                );
-                std::process::exit(2);
+                continue;
             }
+            if since.elapsed().as_secs() < limit {
+                continue;
+            }
+            // which case hangs?
+            let case: Option<Value> = {
+                let c = CURRENT.lock().unwrap_or_else(|e| e.into_inner());
+                c.iter().flatten().min_by_key(|(t, _)| *t).map(|(_, d)| d())
+            };
+            let Some(case) = case else {
+                println!("INCONCLUSIVE: no case of {} finished for {} s; no evidence written", prop, limit);
+                std::process::exit(2);
+            };
+            let dir = verif_root().join("replays");
+            let _ = std::fs::create_dir_all(&dir);
+            let path = dir.join(format!("{}-hang-{:016x}.json", prop, hash_json(&case)));
+            let rf = ReplayFile {
+                engine: engine.to_string(),
+                property: prop.clone(),
+                seed,
+                stage: "hang-watchdog".into(),
+                case,
+                violation: Some(Violation {
+                    oracle: "hang".into(),
+                    step: 0,
+                    detail: format!("the case did not finish within {} s", limit),
+                    trace: vec![],
+                }),
+            };
+            let _ = std::fs::write(&path, serde_json::to_string_pretty(&rf).unwrap_or_default());
+            // does it hang again, alone, in a fresh process?
+            let again = std::env::current_exe().ok().and_then(|exe| {
+                std::process::Command::new(exe)
+                    .arg("replay")
+                    .arg(&path)
+                    .env("VERIF_HANG_CHILD", "1")
+                    .stdout(std::process::Stdio::null())
+                    .stderr(std::process::Stdio::null())
+                    .spawn()
+                    .ok()
+            });
+            let mut reproduced = false;
+            if let Some(mut child) = again {
+                let t0 = Instant::now();
+                loop {
+                    match child.try_wait() {
+                        Ok(Some(_)) => break,
+                        Ok(None) if t0.elapsed().as_secs() >= 60 => {
+                            let _ = child.kill();
+                            reproduced = true;
+                            break;
+                        }
+                        Ok(None) => std::thread::sleep(std::time::Duration::from_millis(200)),
+                        Err(_) => break,
+                    }
+                }
+            }
+            if reproduced && hang_is_violation {
+                println!("oracle: hang\nstep: 0\ndetail: a pool call in this case never returns (no case finished for {} s, and the case hangs again when replayed alone)", limit);
+                println!("VIOLATION property={} replay={}", prop, path.display());
+                std::process::exit(1);
+            }
+            println!(
+                "INCONCLUSIVE: no case of {} finished for {} s (an operation hangs{}); case written to {}; no evidence written",
+                prop,
+                limit,
+                if reproduced { ", reproducibly" } else { ", not reproducibly" },
+                path.display()
+            );
+            std::process::exit(2);
         }
     });
 }
 
 fn check<E: Engine>(prop: &str, tier: Tier, seed: u64) -> i32 {
     let t0 = Instant::now();
-    start_hang_watchdog(prop.to_string());
+    start_hang_watchdog(E::NAME, prop.to_string(), seed, E::hang_is_violation(prop));
     let known_entries = load_known(prop);
     let ctx = Ctx {
         prop: prop.to_string(),
@@ -643,7 +741,12 @@ fn run_shard<E: Engine>(
         if !failed.get() && (stop.load(Ordering::Relaxed) || incon.borrow().is_some()) {
             return Ok(());
         }
+        {
+            let c2 = case.clone();
+            set_current(shard as usize, Some(Box::new(move || serde_json::to_value(&c2).unwrap_or(Value::Null))));
+        }
         let rep = E::run(ctx, &case);
+        set_current(shard as usize, None);
         PROGRESS.fetch_add(1, Ordering::Relaxed);
         if !failed.get() {
             let mut st = stats.borrow_mut();
@@ -670,6 +773,23 @@ fn run_shard<E: Engine>(
         }
         if let Some(w) = rep.inconclusive {
             if !failed.get() {
+                // an operation on a worker thread neither finished nor parked: if the property
+                // promises that calls complete and the case does it again, that is a violation
+                if E::hang_is_violation(&ctx.prop) && w.starts_with("watchdog") {
+                    let again = E::run(ctx, &case);
+                    if again.inconclusive.as_deref().map(|a| a.starts_with("watchdog")).unwrap_or(false) {
+                        let v = Violation {
+                            oracle: "hang".into(),
+                            step: 0,
+                            detail: format!("reproducible: {}", w),
+                            trace: vec![],
+                        };
+                        *first.borrow_mut() = Some((case.clone(), v));
+                        failed.set(true);
+                        stop.store(true, Ordering::Relaxed);
+                        return Err(TestCaseError::fail("hang"));
+                    }
+                }
                 *incon.borrow_mut() = Some(w);
                 stop.store(true, Ordering::Relaxed);
             }
